@@ -1777,3 +1777,11 @@ MA('C08', 'conjugate KL proximal reads the input after out was written',
    'odl/solvers/nonsmooth/proximal_operators.py',
    'proximal_convex_conj_kl.ProximalConvexConjKL._call',
    'x = x.copy()', 'out.assign(x)', 'in place')
+MA('C13', 'Laplacian.adjoint returns the (possibly affine) operator itself',
+   DIFF, 'Laplacian.adjoint',
+   'return Laplacian(self.range, self.domain, pad_mode=self.pad_mode, pad_const=0)',
+   'return self', 'R8')
+MA('C13', 'Divergence scales once when the cell sides are close', DIFF,
+   'Divergence._call', 'dx = self.range.cell_sides',
+   'dx = self.range.cell_sides\nif np.allclose(dx, dx[0]):\n    dx = [dx[0]] * ndim',
+   'np.allclose')
